@@ -189,6 +189,7 @@ func costs(x *vs.Exec, upto int) (p, f, d int) {
 			continue
 		}
 		switch {
+		case pt.Kind == vs.PFree:
 		case pt.Kind == vs.PEnv:
 			d++
 		case pt.CurEnabled:
@@ -274,6 +275,7 @@ func (e *explorer) explore(prefix []int) {
 		pt := x.Points[i]
 		p, f, d := costs(x, i)
 		switch {
+		case pt.Kind == vs.PFree:
 		case pt.Kind == vs.PEnv:
 			d++
 		case pt.CurEnabled:
